@@ -684,6 +684,16 @@ impl Network {
                             continue;
                         };
 
+                        // A holder can answer with any validly signed scratchpad:
+                        // only the ones that live at the key being read are versions of it.
+                        if scratchpad.network_address().to_record_key() != *key {
+                            warn!(
+                                "Rejecting Scratchpad for {pretty_key} that belongs to another address {:?} during split record error",
+                                scratchpad.address()
+                            );
+                            continue;
+                        }
+
                         if !scratchpad.is_valid() {
                             warn!(
                                 "Rejecting Scratchpad for {pretty_key} PUT with invalid signature during split record error"
